@@ -6,10 +6,11 @@
                           Type of the reference grammar (rg_type consumes all of them)               -- FULL
      C07_type_accepts   : the converse, when the recursion limit exceeds the number of `[` (a bound on nesting)
      C07_fieldset_exact : no error reported by parse_selection_set  ->  the significant tokens are exactly
-                          `{ Selection+ }` or `Selection+` of the RELAXED grammar (Parse/RefLenient.v: the reference
-                          plus the parser's known leniencies); outside the decidable class rgl_known_field_set they
-                          are exactly that of the reference grammar.  The unrestricted statement is false of the
-                          code (C07_fieldset_exact_refuted: `f(a)`, an argument without a value, C05's finding).
+                          `{ Selection+ }` or `Selection+` of the reference grammar                    -- FULL
+                          (the two leniencies that used to show here, an argument / object field without a value,
+                          C05's findings, were repaired in /repo: C07_fieldset_repaired_witness keeps the former
+                          counterexample `f(a)`; the remaining relaxation of Parse/RefLenient.v, a list value ending
+                          at the end of the tokens, never shows in a whole field set: Parse/RefLenientEof.v).
      C07_fieldset_accepts : everything the reference accepts is parsed without error (recursion limit above the
                           number of `{`, `[`, `:` tokens + 1).
    and, for all item lists / limits (older, weaker facts kept): both entries read to the end of the stream before
@@ -82,13 +83,11 @@ Print Assumptions C07_type_accepts.
 
 Theorem C07_fieldset_exact : forall dbg rl s r, 0 < rl ->
   parse_selection_set_items dbg rl (lex_all s) = POk r -> pr_errors r = [] ->
-  exists ts, rg_significant (lex_all s) = Some ts /\ rgl_field_set rgl_parser ts = RgOk [] /\
-             (rgl_known_field_set ts = false -> rg_field_set ts = RgOk []).
-Proof. exact rl_field_set_exact_source. Qed.
+  exists ts, rg_significant (lex_all s) = Some ts /\ rg_field_set ts = RgOk [].
+Proof. exact rl_field_set_exact_reference. Qed.
 Check C07_fieldset_exact : forall dbg rl s r, 0 < rl ->
   parse_selection_set_items dbg rl (lex_all s) = POk r -> pr_errors r = [] ->
-  exists ts, rg_significant (lex_all s) = Some ts /\ rgl_field_set rgl_parser ts = RgOk [] /\
-             (rgl_known_field_set ts = false -> rg_field_set ts = RgOk []).
+  exists ts, rg_significant (lex_all s) = Some ts /\ rg_field_set ts = RgOk [].
 Print Assumptions C07_fieldset_exact.
 
 Theorem C07_fieldset_accepts : forall dbg rl s r ts,
@@ -100,18 +99,20 @@ Check C07_fieldset_accepts : forall dbg rl s r ts,
   rg_field_set ts = RgOk [] -> rl_weight ts + 1 < rl -> pr_errors r = [].
 Print Assumptions C07_fieldset_accepts.
 
-(* the unrestricted field-set statement is false of the code: `f(a)` is parsed without error (0 errors), the
-   reference rejects its tokens, and they are in the known class *)
-Theorem C07_fieldset_exact_refuted :
-  rl_errs_of (parse_selection_set_items false 500 (lex_all rl_field_set_witness)) = Some 0 /\
+(* the former counterexample `f(a)` (an argument without a value, repaired in /repo): the model now reports it, the
+   reference rejects its tokens, they are outside the class, and the relaxed grammar of before the repair accepted them *)
+Theorem C07_fieldset_repaired_witness :
+  rl_reports (parse_selection_set_items false 500 (lex_all rl_field_set_witness)) = true /\
   rg_significant (lex_all rl_field_set_witness) = Some rl_field_set_witness_tokens /\
-  rg_field_set rl_field_set_witness_tokens = RgNo /\ rgl_known_field_set rl_field_set_witness_tokens = true.
-Proof. exact rl_field_set_refuted. Qed.
-Check C07_fieldset_exact_refuted :
-  rl_errs_of (parse_selection_set_items false 500 (lex_all rl_field_set_witness)) = Some 0 /\
+  rg_field_set rl_field_set_witness_tokens = RgNo /\ rgl_known_field_set rl_field_set_witness_tokens = false /\
+  rgl_whole (rgl_field_set rgl_parser_old) rl_field_set_witness_tokens = true.
+Proof. exact rl_field_set_repaired. Qed.
+Check C07_fieldset_repaired_witness :
+  rl_reports (parse_selection_set_items false 500 (lex_all rl_field_set_witness)) = true /\
   rg_significant (lex_all rl_field_set_witness) = Some rl_field_set_witness_tokens /\
-  rg_field_set rl_field_set_witness_tokens = RgNo /\ rgl_known_field_set rl_field_set_witness_tokens = true.
-Print Assumptions C07_fieldset_exact_refuted.
+  rg_field_set rl_field_set_witness_tokens = RgNo /\ rgl_known_field_set rl_field_set_witness_tokens = false /\
+  rgl_whole (rgl_field_set rgl_parser_old) rl_field_set_witness_tokens = true.
+Print Assumptions C07_fieldset_repaired_witness.
 
 (* non-vacuity: `[Int!]!` and ` a { b } ` are parsed without error and are accepted by the reference to the end *)
 Example C07_exact_nonvacuous :
